@@ -5,6 +5,11 @@ HERE = os.path.dirname(os.path.abspath(__file__))
 
 # id -> (implemented, engine, level, technique, text, note, design_ref)
 CHECKS = {
+ "C06": (True, "payflow", "model_checking",
+   "bounded exhaustive histories of commitment updates on two channels of one real node with a ghost ledger of accepted contents",
+   "Every history of <= 4 (6) letters over: approve a keysend for H1, per channel validate-holder / revoke / sign-counterparty / counterparty-revokes with HTLC sets over the approved hash H1 (half, full, over the allowance, two parts) and the unapproved hash H2 (alone, or covered by incoming value), preimage disclosure, restart; plus a narrower counterparty-side-only search to depth 6. After every accepted update the ledger inequality of the statement is evaluated in u128, and an accepted update that introduces an unbacked outgoing HTLC is a violation.",
+   "In-flight value is defined on the two current commitments of each channel (max of views outgoing, min of views incoming), as fixed in DESIGN 3.4.",
+   "3.4"),
  "C17": (True, "macenum", "exploration",
    "exhaustive enumeration of records / mutation lists over a 3-byte alphabet on the real MAC functions of both sides, collision search by hash map",
    "Every record (key of 1-2 characters, version bytes, value of 0-2 bytes over {0x00,'a','b'}) is written with prepare_value_for_put and its stored bytes are presented under every other (key, version) together with shifted/prefixed bytes, and with every single-bit flip, truncation and extension; every list of <= 2 records (plus merged records) is tagged with compute_shared_hmac on the signer side and the storage-library side (compared with each other), collisions between different lists are searched exhaustively; replay under a new nonce, modified and truncated tags are refused.",
